@@ -56,6 +56,10 @@ def operations(plist):
         ("import-and-use", "req r\n%%import %s\n<pa1/>\n" % pa, ()),
         ("import-other-definition", "req r\n%%import %s\n<pa1/>\n" % pc, ()),
         ("use-without-import", "req r\n<pa1/>\n", ()),
+        # a second, different component: what one load imported must not be there for the next
+        ("import-second-and-use", "req r\n%%import %s\n<pb1/>\n" % pb, ()),
+        ("import-second-use-first", "req r\n%%import %s\n<pa1/>\n" % pb, ()),
+        ("import-both-and-use", "req r\n%%import %s\n%%import %s\n<pa1/>\n<pb1/>\n" % (pa, pb), ()),
         ("overrides-valid", "req r\n<box b1>\n  bm 4\n</box>\n", ("b1/bm=9", "k1=5", "m1=o")),
         ("overrides-unconvertible", "req r\n<box b1>\n</box>\n", ("b1/bm=zz",)),
         ("mutate-last-result", None, ()),
@@ -103,7 +107,8 @@ def outcome(sch, text, overrides):
     return ("I", core.exc_desc(r[1])), None
 
 
-IMPORT_OPS = ("import-and-use", "import-other-definition")
+IMPORT_OPS = ("import-and-use", "import-other-definition", "import-second-and-use", "import-second-use-first",
+              "import-both-and-use")
 
 
 def run_sequence(xml, ops, seq, acc, mid, fresh_outcomes):
@@ -169,7 +174,8 @@ def shard(arg, acc):
             for i, (name, text, ovr) in enumerate(ops):
                 if text is None:
                     continue
-                want = "A" if name.startswith(("valid", "overrides-valid", "import-and-use")) else "R"
+                want = "A" if name.startswith(("valid", "overrides-valid", "import-and-use", "import-second-and-use",
+                                               "import-both-and-use")) else "R"
                 if fresh[i][0] != want:
                     raise core.HarnessError("operation %s: fresh outcome %r, designed to be %s" % (name, fresh[i], want))
             return acc
@@ -229,12 +235,13 @@ def _strip_ids(d):
 
 def run(tier):
     depth = 4 if tier == "quick" else 5
-    nops = 15
+    nops = 18
     run = core.Run(
         "C13", tier, "model_checking",
         rule="%d operations on one schema object (2 valid loads, 7 invalid loads with the fault at the syntax / "
-             "matching / key-conversion / value-conversion / section-datatype / top-level-finish stage, 3 loads around "
-             "'%%import', 2 loads with overrides, mutation of every list/dict of the last result); every sequence of "
+             "matching / key-conversion / value-conversion / section-datatype / top-level-finish stage, 6 loads around "
+             "'%%import' of two different components and of a third one that defines a type name differently, 2 loads "
+             "with overrides, mutation of every list/dict of the last result); every sequence of "
              "<= %d operations explicitly, each step compared with the same load on a fresh schema and with the "
              "schema's structural digest; then a breadth-first search to depth 8 with state = digest(schema) "
              "(object identities normalised).  Non-trivial = sequence with a failed load or a mutation followed by "
